@@ -58,15 +58,7 @@ def case_cost(case):
 # ---- real multiprocessing stores ----------------------------------------------------------------
 
 def make_mp_store(root, cfg):
-    old = os.environ.get("USE_MULTIPROCESSING")
-    os.environ["USE_MULTIPROCESSING"] = "True"
-    try:
-        return common.make_store(root, cfg, real_primitives=True)
-    finally:
-        if old is None:
-            os.environ.pop("USE_MULTIPROCESSING", None)
-        else:
-            os.environ["USE_MULTIPROCESSING"] = old
+    return common.make_store(root, cfg, real_primitives=True, mp_env=True)
 
 
 def mp_lists_left(store):
@@ -491,6 +483,13 @@ def _fork_case(case, ctx):
 
 
 def run_case(case, ctx):
+    try:
+        return _run_case(case, ctx)
+    except common.ModeNotHonoured as e:
+        ctx.violation("multiprocessing-mode-not-honoured", f"[{case.get('family')}] {e}", {"family": case.get("family"), "failure": "mode"})
+
+
+def _run_case(case, ctx):
     fsi.install()
     fam = case["family"]
     if fam == "diff":
